@@ -48,7 +48,7 @@ OPS_BY_NAME = {}
 def plan(tier):
     if tier == "thorough":
         return dict(runs=18000, wall_budget=1500, per_run_timeout=300, selftest=16, shrink_evals=200, shrink_seconds=120)
-    return dict(runs=256, wall_budget=240, per_run_timeout=240, selftest=4, shrink_evals=80, shrink_seconds=40)
+    return dict(runs=304, wall_budget=240, per_run_timeout=240, selftest=4, shrink_evals=80, shrink_seconds=40)
 
 
 class K1(Exception):
@@ -684,8 +684,15 @@ def prepare(tier="quick"):
         BASELINE[nm] = tuple(json.loads(buf.decode()))
 
 
+def opcode_run(index):
+    """Runs 0..255 are line-level as before (bit-identical to the earlier machinery); runs 256..303 (the tail of the
+    quick tier) and every eighth run after that pre-empt between *bytecodes* inside the files that hold process-wide
+    shared objects.  A pure function of the run index, which replay files carry."""
+    return index >= 256 and (index < 304 or index % 8 == 7)
+
+
 class Threads:
-    def __init__(self, ch):
+    def __init__(self, ch, index=0):
         self.ch = ch
         import ofxtools
         base = os.path.dirname(ofxtools.__file__) + os.sep
@@ -704,6 +711,18 @@ class Threads:
             self.sim.hot_k = [25, 60, 12][ch.pick("cfg.hotzone.k", 3)] * (20 if zone == 2 else 1)
             self.sim.hot_salt = ch.pick("cfg.hotzone.salt", 1 << 20)
             self.sim.count("probe.hotzone_runs")
+        if opcode_run(index):
+            zone = ch.weighted("cfg.opcode.files", [3, 2, 2])
+            self.sim.opcode_files = [("ofxtools/Types.py", "functools.py"),
+                                     ("ofxtools/Types.py", "functools.py", "ofxtools/utils.py", "ofxtools/header.py",
+                                      "ofxtools/models/base.py"),
+                                     ("ofxtools/Types.py", "ofxtools/Parser.py", "ofxtools/Client.py",
+                                      "ofxtools/models/base.py", "ofxtools/models/__init__.py")][zone]
+            self.sim.count("probe.opcode_level_runs")
+            # per-bytecode events are ~10x the line events: short quanta and (in run()) small operations, so that the
+            # whole run stays pre-emptible instead of running into the step cap
+            self.sim.mean_quantum = self.mean = [3, 10, 30][ch.pick("cfg.opcode.quantum", 3)]
+        self.opcode = opcode_run(index)
         self.violations = []
         self.vkeys = set()
         self.judged = 0
@@ -764,6 +783,9 @@ class Threads:
         shape = ch.weighted("cfg.tasks", [2, 4, 3, 2, 1, 1, 1])
         n_tasks = [1, 2, 3, 4, 5, 6, 16][shape]
         tiny = [n for n in names if n.startswith(("type:", "header:", "from_etree:"))]
+        tiny_set = set(tiny)
+        if self.opcode and n_tasks < 2:
+            n_tasks = 2
         # swarm: in part of the runs every task draws from one family of related operations, so that the
         # tasks contend for the same shared objects (class-level converters, dispatch registries)
         fams = {}
@@ -784,9 +806,14 @@ class Threads:
         plans = []
         for t in range(n_tasks):
             pool = focus if focus is not None else (tiny if n_tasks == 16 else names)
+            if self.opcode:
+                small = [n for n in (focus or ()) if n in tiny_set]
+                pool = small if len(small) >= 3 else tiny
             k = 1 + ch.pick("task.ops", 3)
             if focus is not None and focus[0].startswith("fresh:") and n_tasks > 6:
                 k = 1            # (hundreds of conversions per operation: keep many-task runs under the step cap)
+            if self.opcode:
+                k = 3 + ch.pick("task.ops.opcode", 8)      # small operations, more of them per task
             plans.append([pool[ch.pick("task.op", len(pool))] for _ in range(k)])
 
         def body(t, ops):
@@ -804,7 +831,7 @@ class Threads:
 
 
 def run(ch, index, tier):
-    w = Threads(ch)
+    w = Threads(ch, index)
     sim = w.sim
     aborted = None
     try:
